@@ -457,6 +457,11 @@ func (x *Exec) runRoot(prereg []preregKey) (err error) {
 			a.params[p.Name()] = sl
 			continue
 		}
+		if fl, ok := x.fieldPtrParam(fn, p); ok {
+			a.vals[p] = fl
+			a.params[p.Name()] = fl
+			continue
+		}
 		v := c.freshVal("p_"+p.Name(), p.Type())
 		c.Assume(x.typeInv(v, x.alloc0))
 		a.vals[p] = v
@@ -1226,6 +1231,57 @@ func (x *Exec) zeroGhosts(st *State, n *types.Named, ref string) {
 			}
 		}
 	}
+}
+
+// fieldPtrParam: a parameter of type *P, P a type parameter, of a function that also has a parameter of type **N (or *N) where
+// the struct N has exactly one field of type P, is modelled as the address of that field of SOME allocated node: the only
+// addresses of this type the library ever passes (avltree.removeMin's minKey/minVal are &q.Key / &q.Value). In contracts:
+// deref(p) is the field's content, slot_tree(p) the node that owns the field, `modifies deref(p)` the frame item.
+func (x *Exec) fieldPtrParam(fn *ssa.Function, p *ssa.Parameter) (Val, bool) {
+	pt, ok := types.Unalias(p.Type()).(*types.Pointer)
+	if !ok || !isTypeParam(pt.Elem()) {
+		return Val{}, false
+	}
+	for _, q := range fn.Params {
+		if q == p {
+			continue
+		}
+		qt, ok := types.Unalias(q.Type()).(*types.Pointer)
+		if !ok {
+			continue
+		}
+		n := namedStruct(qt.Elem())
+		if n == nil {
+			if q2, ok := types.Unalias(qt.Elem()).(*types.Pointer); ok {
+				n = namedStruct(q2)
+			}
+		}
+		if n == nil {
+			continue
+		}
+		stt, ok := n.Underlying().(*types.Struct)
+		if !ok {
+			continue
+		}
+		idx := -1
+		for i := 0; i < stt.NumFields(); i++ {
+			if types.Identical(types.Unalias(stt.Field(i).Type()), types.Unalias(pt.Elem())) {
+				if idx >= 0 {
+					idx = -2
+					break
+				}
+				idx = i
+			}
+		}
+		if idx < 0 {
+			continue
+		}
+		c := x.ctx
+		ref := c.Fresh("p_"+p.Name()+".owner", "Int")
+		c.Assume(and(app("<", "0", ref), app("<=", ref, x.alloc0)))
+		return Val{K: KLoc, T: p.Type(), Loc: &Loc{K: LField, Owner: n, Path: []int{idx}, Ref: ref, T: pt.Elem()}}, true
+	}
+	return Val{}, false
 }
 
 // slotParam: a parameter of type **N where N is a struct with an array-of-*N field (child slots) in a package that has a
